@@ -407,5 +407,41 @@ def r01_10(ctx):
     return r
 
 
+def r01_11(ctx):
+    """RFC 3758 3.5 (A5): the Advanced.Peer.Ack.Point may move forward only over chunks marked abandoned. Moving it
+    over a chunk that is merely gap-acked makes the FORWARD-TSN cover a chunk of another (possibly reliable) stream:
+    the receiver discards it from its reorder buffer, the sender forgets it - the message is lost and the ordered
+    stream behind it never advances."""
+    r = RuleResult("R01.11", "K1", "the PR-SCTP ack point advances only over abandoned chunks")
+    fn = "transports::sctp::SctpInner::update_advanced_peer_ack_point"
+    b = ctx.body(fn)
+    r.scope.append(fn)
+    ls = [i for i, l in enumerate(b.locals) if l.get("n") == "new_advanced"]
+    if len(ls) != 1:
+        raise core.CheckerError("R01.11: local new_advanced not found")
+    l = ls[0]
+    loops = b.loops()
+    sites = []
+    for bi, si, st in b.assigns():
+        if st["p"]["l"] == l and "p" not in st["p"] and any(bi in blocks for h, blocks in loops):
+            sites.append((bi, si))
+    r.need("ack point advances inside the walk", len(sites), 1)
+
+    def abandoned(term, meaning, *_):
+        t, neg = term, False
+        if t[0] == "un" and t[1] == "Not":
+            t, neg = t[2], True
+        return t[0] == "field" and t[2] == "abandoned" and isinstance(meaning, bool) and (meaning is not neg)
+    g = core.guard_edges(b, abandoned)
+    for bi, si in sites:
+        if g and core.k1(b, [bi], g, fresh_per_iteration=True)[bi] is None:
+            r.ok({"site": b.where(bi, si), "cut_by": "record.abandoned"})
+        else:
+            r.violate(fn, "advance:not-abandoned", b.where(bi, si),
+                      "the advanced peer ack point can move over a chunk that is not abandoned (e.g. only gap-acked): the "
+                      "FORWARD-TSN then skips data of other streams, which the receiver discards")
+    return r
+
+
 def run(ctx):
-    return [r01_1(ctx), r01_2(ctx), r01_3(ctx), r01_4(ctx), r01_5(ctx), r01_6(ctx), r01_7(ctx), r01_8(ctx), r01_9(ctx), r01_10(ctx)]
+    return [r01_1(ctx), r01_2(ctx), r01_3(ctx), r01_4(ctx), r01_5(ctx), r01_6(ctx), r01_7(ctx), r01_8(ctx), r01_9(ctx), r01_10(ctx), r01_11(ctx)]
